@@ -18,6 +18,12 @@ def main():
     if a.replay:
         from vm import ctx as C
         rec = json.load(open(a.replay))
+        if rec.get('index') is None:
+            # aggregate verdict (statistical monitor, worker crash): the
+            # witness is the whole run at that seed and tier
+            os.environ['VERIF_SEED'] = str(rec.get('seed', 0))
+            from vm import orchestrate
+            return orchestrate.run(cid, rec.get('tier', 'quick'))
         os.environ.setdefault('PYTHONHASHSEED', str(rec.get('hashseed') or 0))
         mod = importlib.import_module('vm.checks.' + cid.lower())
         ctx = C.Ctx(cid, rec['tier'], rec['seed'], replay=True)
